@@ -109,7 +109,8 @@ class PITConv1d(nn.Conv1d, PITModule):
             # apply all masks to the weights
             pruned_weight = torch.mul(self.weight, cout_mask.unsqueeze(1).unsqueeze(1))
             pruned_weight = torch.mul(time_mask, pruned_weight)
-            return self._conv_forward(input, pruned_weight, self.bias)
+            pruned_bias = None if self.bias is None else torch.mul(self.bias, cout_mask)
+            return self._conv_forward(input, pruned_weight, pruned_bias)
         else:
             # apply time mask to the weights
             pruned_weight = torch.mul(time_mask, self.weight)
